@@ -113,8 +113,9 @@ func TestWriteFault(t *testing.T) {
 				if k < 0 || k > len(full) {
 					continue
 				}
-				for mode := 0; mode < 4; mode++ {
-					short, transient := mode == 1, mode == 2
+				for mode := 0; mode < 5; mode++ {
+					// (mode 4: part of the data is taken, the error says "temporary", the device recovers)
+					short, transient := mode == 1 || mode == 4, mode == 2 || mode == 4
 					if transient && k == len(full) {
 						continue
 					}
@@ -200,7 +201,7 @@ func TestWriteFault(t *testing.T) {
 				c.Probe("real file destination under a size quota")
 			}
 			if len(full) <= limit {
-				core.ExhaustiveDone("C19: every failure position k in [0,len] x {error, short write, one-shot failure, sentinel error value} for one artifact", 1)
+				core.ExhaustiveDone("C19: every failure position k in [0,len] x {error, short write, one-shot failure, sentinel error value, partial one-shot failure} for one artifact", 1)
 			}
 			c.Outcome("done")
 			c.Sig("%s/rf%v/len%d", in.name, rf, len(full)/64)
